@@ -3,7 +3,7 @@
    what that property's statements need, so that a change which breaks one property's proof leaves the
    others' theorems checkable. *)
 From NTRIP Require Import Base Net ProdCons.
-From NTRIP Require Writers.
+From NTRIP Require Writers NetExamples.
 From NTRIPGen Require Import GenConsts.
 
 (* ===================== C11 ===================== *)
@@ -62,6 +62,13 @@ Theorem C11_k_no_deadlock : forall (V : Type) lat cap k (msgs : list V) c, (fora
   Writers.ops V c = [] /\ forall i, (i < k)%nat -> Writers.w V c i = Writers.WHalt V /\ Writers.wrote V c i = msgs.
 Proof. exact Writers.std_no_deadlock. Qed.
 Print Assumptions C11_k_no_deadlock.
+
+(* Non-vacuity: two writers, two messages, latency 1, capacity 1 - a complete schedule after which main has
+   returned and both writers hold both messages. *)
+Example C11_k_example :
+  exists c, Writers.reach nat 1%nat (fun _ => 1%nat) (Writers.init nat (Writers.std_prog nat 2%nat [7; 8]%nat)) c /\
+            Writers.returned nat c = true /\ Writers.wrote nat c 0%nat = [7; 8]%nat /\ Writers.wrote nat c 1%nat = [7; 8]%nat.
+Proof. exact NetExamples.writers_example. Qed.
 
 (* The protocol without the wait (the code before its repair) loses output: main has returned and
    the writer has written nothing. *)
